@@ -8,6 +8,7 @@ From Coq Require Import List.
 Import ListNotations.
 Require Import LdkV.Model.Noise.
 Open Scope Z_scope.
+Set Default Proof Using "Type*".
 
 (** ** list slicing *)
 Lemma skipn_app_exact {A} (a b : list A) n : length a = n -> skipn n (a ++ b) = b.
@@ -55,6 +56,14 @@ Lemma max_len_u16 : 0 <= LN_MAX_MSG_LEN < 65536.
 Proof. unfold LN_MAX_MSG_LEN. lia. Qed.
 Lemma rot_even_pos : 0 < ROT_SEND /\ ROT_SEND mod 2 = 0.
 Proof. unfold ROT_SEND. split; [lia | reflexivity]. Qed.
+
+Lemma consts_ok :
+  ROT_SEND = ROT_RECV /\ 0 < ROT_SEND /\ ROT_SEND mod 2 = 0 /\
+  0 <= MIN_MSG_LEN <= LN_MAX_MSG_LEN /\ LN_MAX_MSG_LEN < 65536.
+Proof.
+  split; [exact rot_equal|]. split; [exact (proj1 rot_even_pos)|]. split; [exact (proj2 rot_even_pos)|].
+  unfold MIN_MSG_LEN, LN_MAX_MSG_LEN. lia.
+Qed.
 
 Section NoiseProofs.
   Variable dh : bytes -> bytes -> bytes.
@@ -207,12 +216,25 @@ Section NoiseProofs.
     intros Heq. inversion Heq; subst.
     repeat split; try assumption. eexists. split; [reflexivity|]. cbn. auto.
   Qed.
+End NoiseProofs.
 
-  (** ** Transport: lock-step *)
+(** ** Transport: lock-step *)
 
-  (** the sender's sending half equals the receiver's receiving half *)
-  Definition synced (ts tr : transport) : Prop :=
-    t_sk ts = t_rk tr /\ t_sn ts = t_rn tr /\ t_sck ts = t_rck tr.
+(** the sender's sending half equals the receiver's receiving half *)
+Definition synced (ts tr : transport) : Prop :=
+  t_sk ts = t_rk tr /\ t_sn ts = t_rn tr /\ t_sck ts = t_rck tr.
+
+Section NoiseTransport.
+  Variable hkdf2 : bytes -> bytes -> bytes * bytes.
+  Variable seal : bytes -> Z -> bytes -> bytes -> bytes.
+  Variable open : bytes -> Z -> bytes -> bytes -> option bytes.
+
+  Notation rotate_send := (rotate_send hkdf2).
+  Notation rotate_recv := (rotate_recv hkdf2).
+  Notation enc_msg := (enc_msg hkdf2 seal).
+  Notation dec_header := (dec_header hkdf2 open).
+  Notation dec_body := (dec_body open).
+  Notation enc_all := (enc_all hkdf2 seal).
 
   Section Transport.
     Hypothesis seal_len : forall k n ad p, length (seal k n ad p) = (length p + 16)%nat.
@@ -269,6 +291,8 @@ Section NoiseProofs.
       repeat split; try assumption; try lia.
     Qed.
 
+  End Transport.
+
     (** ** Rotation *)
 
     (** sender: rotation happens exactly when the nonce has reached the constant *)
@@ -277,12 +301,13 @@ Section NoiseProofs.
       (ROT_SEND <= t_sn t -> (t_sck t', t_sk t') = hkdf2 (t_sck t) (t_sk t) /\ t_sn t' = 2) /\
       t_rk t' = t_rk t /\ t_rn t' = t_rn t /\ t_rck t' = t_rck t.
     Proof.
+      clear open.
       unfold Noise.enc_msg, Noise.rotate_send.
       destruct (LN_MAX_MSG_LEN <? blen m); [discriminate|].
       destruct (Z.leb_spec ROT_SEND (t_sn t)) as [Hr|Hr].
-      - destruct (hkdf2 (t_sck t) (t_sk t)) as [ck k]. cbn. intros Heq; inversion Heq; subst; cbn.
+      - destruct (hkdf2 (t_sck t) (t_sk t)) as [ck k]. cbn. intros [= <- <-]; cbn.
         repeat split; try lia; reflexivity.
-      - intros Heq; inversion Heq; subst; cbn. repeat split; try lia; reflexivity.
+      - intros [= <- <-]; cbn. repeat split; try lia; reflexivity.
     Qed.
 
     (** receiver: the same rule on the receiving half, applied when the length header arrives *)
@@ -291,13 +316,14 @@ Section NoiseProofs.
       (ROT_RECV <= t_rn t -> (t_rck t', t_rk t') = hkdf2 (t_rck t) (t_rk t) /\ t_rn t' = 1) /\
       t_sk t' = t_sk t /\ t_sn t' = t_sn t /\ t_sck t' = t_sck t.
     Proof.
+      clear seal.
       unfold Noise.dec_header, Noise.rotate_recv.
       destruct (Z.leb_spec ROT_RECV (t_rn t)) as [Hr|Hr].
       - destruct (hkdf2 (t_rck t) (t_rk t)) as [ck k]. cbn.
         destruct (open k 0 [] hdr); [|discriminate].
-        intros Heq; inversion Heq; subst; cbn. repeat split; try lia; reflexivity.
+        intros [= <- <-]; cbn. repeat split; try lia; reflexivity.
       - destruct (open (t_rk t) (t_rn t) [] hdr); [|discriminate].
-        intros Heq; inversion Heq; subst; cbn. repeat split; try lia; reflexivity.
+        intros [= <- <-]; cbn. repeat split; try lia; reflexivity.
     Qed.
 
     (** the body never rotates *)
@@ -305,10 +331,11 @@ Section NoiseProofs.
       t_rk t' = t_rk t /\ t_rck t' = t_rck t /\ t_rn t' = t_rn t + 1 /\
       t_sk t' = t_sk t /\ t_sn t' = t_sn t /\ t_sck t' = t_sck t.
     Proof.
+      clear hkdf2 seal.
       unfold Noise.dec_body.
       destruct (LN_MAX_MSG_LEN + 16 <? blen body); [discriminate|].
       destruct (open (t_rk t) (t_rn t) [] body); [|discriminate].
-      intros Heq; inversion Heq; subst; cbn. auto 10.
+      intros [= <- <-]; cbn. auto 10.
     Qed.
 
     (** closed form. [rot_n r (ck, k)]: the key pair after [r] rotations. After [j >= 1] messages
@@ -329,6 +356,7 @@ Section NoiseProofs.
       then (t_sck t', t_sk t') = rot_n r (ck0, k0) /\ t_sn t' = 2 * (s + 2)
       else (t_sck t', t_sk t') = rot_n (Datatypes.S r) (ck0, k0) /\ t_sn t' = 2 * (0 + 1).
     Proof.
+      clear open.
       intros Henc Hs Hkeys Hsn.
       destruct (rotation_send _ _ _ _ Henc) as [Hlt [Hge _]].
       assert (Hrot : ROT_SEND = 2 * PER) by (unfold PER, ROT_SEND; reflexivity).
@@ -345,6 +373,7 @@ Section NoiseProofs.
         Z.of_nat (length ms) - 1 = Z.of_nat r * PER + s /\ 0 <= s < PER /\
         (t_sck t', t_sk t') = rot_n r (ck0, k0) /\ t_sn t' = 2 * (s + 1).
     Proof.
+      clear open.
       assert (Hper : 0 < PER) by (unfold PER, ROT_SEND; reflexivity).
       (* generalised: start after [j] messages in position (r, s) *)
       assert (Hgen : forall ms t cs t' ck0 k0 (r : nat) s,
@@ -381,5 +410,4 @@ Section NoiseProofs.
         [lia | cbn [rot_n]; rewrite Hk1, Hck1; exact Hk0 | rewrite Hn1, Hn0; lia | exact Hrest |].
       exists r', s'. cbn [length]. repeat split; try assumption; lia.
     Qed.
-  End Transport.
-End NoiseProofs.
+End NoiseTransport.
